@@ -77,6 +77,13 @@ pub fn run_statistics_worker(
     let mut peers: IndexMap<PeerId, (usize, PeerClient, CompactString)> = IndexMap::default();
 
     loop {
+        #[cfg(feature = "verif")]
+        if let aquatic_common::verif::ProbeAction::Return =
+            aquatic_common::verif::probe("udp:statistics:loop", 0)
+        {
+            return Ok(());
+        }
+
         let start_time = Instant::now();
 
         for message in statistics_receiver.try_iter() {
